@@ -187,9 +187,12 @@ def rigid_sweep(chk, MX, n):
     rng = chk.rng
     done = 0
     attempts = 0
+    far_done = False
     while done < n and attempts < 4 * n:
         attempts += 1
-        multi = rng.random() < 0.25 or attempts == 2          # (enumerated: the second scene is a formation, moved far from the Earth-fixed origin below)
+        # (enumerated: from the second scene on a formation is drawn until one has been moved far from the Earth-fixed origin)
+        far = attempts >= 2 and not far_done
+        multi = rng.random() < 0.25 or far
         sd = gen.gen_scene(rng, chk.hist, rho="const", wind=False)
         acs = []
         for k in range(2 if multi else 1):
@@ -197,6 +200,10 @@ def rigid_sweep(chk, MX, n):
             st = gen.gen_state(rng, chk.hist, pose=multi)
             if multi and k == 1:
                 st["position"] = [rng.uniform(-30, 30), rng.uniform(15, 40) * rng.choice([-1, 1]), rng.uniform(-20, 20)]
+            if far:
+                # a close formation (wingman a span to the side, a little behind and below), both level: the mutual induction is a visible part of the loads
+                st.pop("orientation", None)
+                st["position"] = [0.0, 0.0, 0.0] if k == 0 else [-5.0, 9.0, 1.0]
             acs.append(("ac%d" % k, ac, st, gen.gen_controls(rng, ac)))
         what = ["dist"]
         r_ = rng.random()
@@ -208,7 +215,7 @@ def rigid_sweep(chk, MX, n):
             what.append("ac")
         elif r_ < 0.85 or (multi and r_ < 0.95):
             what.append("state")
-        pm = 3e5 if attempts == 2 else rng.choice([1e3, 1e3, 1e5])      # "any position": also hundreds of thousands of feet from the origin
+        pm = 3e5 if far else rng.choice([1e3, 1e3, 1e5])      # "any position": also hundreds of thousands of feet from the origin
         P = [rng.uniform(-pm, pm), rng.uniform(0.5 * pm, pm) * rng.choice([-1, 1]), rng.uniform(-pm, pm)]
         Q = api.rand_unit_quat(rng)
         mode = rng.choice(["quat", "quat_scaled", "euler_equiv"])
@@ -239,6 +246,9 @@ def rigid_sweep(chk, MX, n):
         ang = 2 * math.degrees(math.acos(min(1.0, abs(Q[0]))))
         chk.case(dict(descr, n_aircraft=len(acs), rot_deg=round(ang, 2)), nontrivial=(ang > 1.0))
         chk.count("sweep_mode=" + mode)
+        if far:
+            far_done = True
+            chk.count("sweep=formation-far-from-origin")
         for w in what:
             chk.count("sweep_what=" + w)
         if bad:
